@@ -413,3 +413,66 @@ def diagonalize_form(ctx, signs, order, reverse):
     ctx.ensure_eq('second_value_is_the_inverse_left', Winv @ W, np.identity(n), tol=1e-6)
     W2 = utils.diagonalize_form(np.array(B, copy=True), order_eigenvalues=order, reverse=reverse, with_inverse=False)
     ctx.ensure_eq('without_inverse_same_W', W2, W, tol=1e-6)
+
+
+@bounded(P, "frames_of_every_scale", functions=[U + "indefinite_orthogonalize", U + "projection", U + "find_isometry", U + "orthogonal_complement"],
+         note="well-conditioned frames multiplied by a common or per-row scale between 1e-7 and 1e4 (the condition number does not change): orthogonalising returns mutually orthogonal rows of "
+              "square-norm +-1 spanning the same flag; completing a partial frame preserves the form")
+def frames_of_every_scale(tier, rng, rep):
+    N = 150 if tier == 'thorough' else 30
+    rep.rule = ("forms: diag(-1,1,..,1), diag of random signature, random non-diagonal symmetric with eigenvalues of modulus in [0.5, 2]; m = 2..5, k = 2..m rows with no lightlike partial span "
+                "(Gram minors bounded away from 0 relative to the scale); scales 1e-7, 1e-5, 1e-3, 1, 1e3 common and per row; batch shapes (), (3,)")
+    rep.bound = f"{N} frames x 5 scales x 2 scalings"
+    for t in range(N):
+        m = int(rng.integers(2, 6)); k = int(rng.integers(2, m + 1))
+        kind = t % 3
+        if kind == 0:
+            F = np.diag([-1.0] + [1.0] * (m - 1))
+        elif kind == 1:
+            F = np.diag(rng.choice([-1.0, 1.0], size=m))
+        else:
+            Q = np.linalg.qr(rng.normal(size=(m, m)))[0]
+            F = Q @ np.diag(rng.uniform(0.5, 2, m) * rng.choice([-1, 1], size=m)) @ Q.T; F = (F + F.T) / 2
+        batch = () if t % 2 else (3,)
+        while True:
+            X = rng.normal(size=batch + (k, m))
+            G = X @ F @ np.swapaxes(X, -1, -2)
+            minors = np.array([[np.linalg.det(g[:j, :j]) for j in range(1, k + 1)] for g in G.reshape((-1, k, k))])
+            if np.all(np.abs(minors) > 0.15):
+                break
+        for sc in (1e-7, 1e-5, 1e-3, 1.0, 1e3):
+            for per_row in (False, True):
+                scales = sc * (10 ** rng.uniform(-0.5, 0.5, size=(k, 1)) if per_row else np.ones((k, 1)))
+                Y = X * scales
+                inp = {"form": F.tolist(), "rows": Y.tolist(), "scale": sc, "per_row": per_row}
+
+                def body():
+                    out = np.asarray(utils.indefinite_orthogonalize(F.copy(), Y.copy()), dtype=float)
+                    if out.shape != Y.shape:
+                        rep.fail("orthogonalize_shape", f"{out.shape}", inp); return
+                    Go = out @ F @ np.swapaxes(out, -1, -2)
+                    off = Go - Go * np.eye(k)
+                    if not np.all(np.isfinite(out)) or not np.all(np.abs(off) <= 1e-6):
+                        rep.fail("rows_mutually_orthogonal", f"scale {sc}: max |<r_i, r_j>| = {np.max(np.abs(off))}", inp); return
+                    if not np.all(np.abs(np.abs(np.diagonal(Go, axis1=-2, axis2=-1)) - 1) <= 1e-6):
+                        rep.fail("rows_square_norm_pm1", f"scale {sc}", inp); return
+                    # same flag: row j of the output lies in the span of the first j+1 input rows
+                    for idx in np.ndindex(*batch):
+                        for j in range(k):
+                            A_ = np.vstack([X[idx][:j + 1], out[idx][j:j + 1]])
+                            sv = np.linalg.svd(A_, compute_uv=False)
+                            if sv[-1] > 1e-6 * sv[0] and A_.shape[0] <= m:
+                                rep.fail("same_flag", f"scale {sc}: output row {j} is not in the span of input rows 0..{j}", inp); return
+                    if batch == () and k < m:
+                        # the library's call sites pass normalised partial frames of any origin; the form must be preserved whatever the scale of the input
+                        M = np.asarray(utils.find_isometry(F.copy(), Y.copy(), False), dtype=float)
+                        # rows orthonormal for the form ("normal" may mean square-norm -1: the signs follow the given rows), i.e. M F M^T is a diagonal
+                        # +-1 matrix of the signature of F; it is F itself when the given rows have the signs of F's leading diagonal
+                        Gm = M @ F @ M.T
+                        dg = np.diag(Gm)
+                        if not (np.all(np.abs(Gm - np.diag(dg)) <= 1e-6) and np.all(np.abs(np.abs(dg) - 1) <= 1e-6) and int((dg < 0).sum()) == int((np.linalg.eigvalsh(F) < 0).sum())):
+                            rep.fail("find_isometry_preserves_form", f"scale {sc}: M F M^T = {np.round(Gm, 4).tolist()} is not a diagonal +-1 matrix of the signature of F", inp); return
+                rep.attempt("orthogonalize_runs", inp, body)
+                rep.case(key=(t, sc, per_row), nontrivial=sc != 1.0, sample=inp if (t, sc, per_row) == (0, 1e-5, False) else None)
+                if len(rep.failures) >= 3:
+                    return
